@@ -43,7 +43,8 @@ impl<'ast> syn::visit::Visit<'ast> for Ctor {
     }
 }
 fn body_of(f: &ImplItemFn) -> String {
-    f.block.stmts.iter().map(|s| norm(tokens_of(s))).collect::<Vec<_>>().join(" ")
+    // let-normal form (canon.rs): renamed or hoisted locals and field shorthand do not show
+    crate::canon::normalize_block(&f.block).stmts.iter().map(|s| norm(tokens_of(s))).collect::<Vec<_>>().join(" ")
 }
 
 pub fn translate(repo: &Path) -> String {
@@ -91,7 +92,7 @@ pub fn translate(repo: &Path) -> String {
                 let tr = im.trait_.as_ref().map(|t| norm(tokens_of(&t.1))).unwrap_or_default();
                 for it in &im.items {
                     if let ImplItem::Fn(f) = it {
-                        let body = f.block.stmts.iter().map(|s| norm(tokens_of(s))).collect::<Vec<_>>().join(" ");
+                        let body = body_of(f);
                         if tr.is_empty() && f.sig.ident == "new" {
                             new_body = body;
                         } else if tr == "Iterator" && f.sig.ident == "next" {
